@@ -711,12 +711,44 @@ func runC16(c *Ctx) {
 						}
 						continue
 					}
+					{
+						// handed on under `err != nil`: not a success of this function, whatever the callee does
+						fs0 := append(append([]Fact{}, lf.Facts...), FactsAtInstr(ret)...)
+						vt0 := TermOf(v).String()
+						if HasFact(fs0, FNotNil(func(t *Term) bool { return t.String() == vt0 })) {
+							continue
+						}
+					}
 					if ex, ok := v.(*ssa.Extract); ok && depth < 2 {
 						if call, ok := ex.Tuple.(*ssa.Call); ok {
 							if h := call.Call.StaticCallee(); h != nil && h.Pkg == fn.Pkg && h.Blocks != nil && ex.Index == h.Signature.Results().Len()-1 {
 								scan(h, depth+1)
+								continue
 							}
 						}
+					}
+					// a single-exit form hands back the error variable itself: the error result of a
+					// call (decode, unmarshal) that is not known to be non-nil here can be nil — a success
+					var callee *ssa.Function
+					switch x := v.(type) {
+					case *ssa.Extract:
+						if call, ok := x.Tuple.(*ssa.Call); ok {
+							callee = call.Call.StaticCallee()
+						}
+					case *ssa.Call:
+						callee = x.Call.StaticCallee()
+					}
+					if callee == nil || (callee.Pkg != nil && (callee.Pkg.Pkg.Path() == "fmt" || callee.Pkg.Pkg.Path() == "errors")) {
+						continue
+					}
+					fs := append(append([]Fact{}, lf.Facts...), FactsAtInstr(ret)...)
+					vt := TermOf(v).String()
+					if HasFact(fs, FNotNil(func(t *Term) bool { return t.String() == vt })) {
+						continue
+					}
+					nOK++
+					if !HasFact(fs, FCmp("==", MCall("gopher-lua.LValue.Type"), MAny())) {
+						bad = "an error that may be nil is returned without the result having been checked to be a table (" + p.Pos(ret.Pos()) + ")"
 					}
 				}
 			}
